@@ -27,6 +27,8 @@ type FuncContract struct {
 	Pure     bool // no heap effects at all (calls leave every component unchanged)
 	Inline   bool // force inlining at call sites even when a contract exists (contract still verified)
 	Lockfree bool // exempt from the lock-balance obligation (function legitimately returns holding/releasing a lock)
+	AssumePre bool // preconditions of callees are assumed at their call sites instead of being checked
+	AssumeFrame bool // the modifies clause is used by callers but not checked against the body (listed as an assumption)
 	Requires []*Clause
 	Ensures  []*Clause
 	Modifies []*Node
@@ -282,6 +284,10 @@ func (c *Contracts) parseFile(path string) error {
 					fc.Inline = true
 				case "lockfree":
 					fc.Lockfree = true
+				case "assumepre":
+					fc.AssumePre = true
+				case "assumeframe":
+					fc.AssumeFrame = true
 				default:
 					return fmt.Errorf("%s: unknown func flag %q", it.pos, fl)
 				}
